@@ -7,7 +7,7 @@
 #include "verif_api.h"
 #include <string>
 
-enum TKind : uint8_t { K_NONE = 0, K_UINT, K_NEG, K_BOOL, K_BSTR, K_TSTR, K_ARR, K_MAP, K_ITEM, K_OPAQUE };
+enum TKind : uint8_t { K_NONE = 0, K_UINT, K_NEG, K_BOOL, K_BSTR, K_TSTR, K_ARR, K_MAP, K_ITEM, K_OPAQUE, K_BRK };
 #ifndef TK_NARR
 #define TK_NARR 2
 #endif
